@@ -191,6 +191,20 @@ mentions `decode bs` under a `match` makes the kernel try to evaluate the decode
 (`readTyped`) to `decode bs`, and `decide +kernel` is used for the closed obligations over the
 environment (`decide` alone ran out of memory).
 
+*Messages, `LazyValue`, the io reader* (third session). `Amqp/Message.lean` is the message codec:
+sections in the order of the standard, three body kinds, batches; `message_roundtrip` and
+`empty_body_is_written_as_null` are proved over the typed model. `Amqp/Lazy.lean` is the byte scanner
+behind `LazyValue` (the category of every constructor is regenerated from `format.rs`); it is proved
+to cut off exactly the encoding of one value and to leave what follows (`lazy_takes_exactly_the_value`,
+`lazy_is_a_prefix`, `lazy_then_decode`). `Amqp/IoRead.lean` is the io reader: a peek buffer in front
+of a stream, `fill_buffer` reading in chunks, the count of bytes consumed; `io_refines_slice` proves,
+for every reader state and every length, that `peek`, `next`, `peek_bytes`, `read_exact` and the
+forwarding reads return on the io reader what they return on the slice reader over the bytes not yet
+handed out, fail exactly when it fails, and leave a reader that stands for the slice reader's new
+state (`abs r = ⟨r.buf ++ r.src, r.consumed⟩`) — so whatever is proved about decoding from a slice
+holds for decoding from a stream, for every chunking. `fill_some` / `fill_none` are the loop's
+contract (nothing lost, nothing counted, fails iff fewer than `len` bytes are left).
+
 *Driver* (`lean/Driver`) parses one line, runs the model, prints one canonical line. Errors are a
 small enum, maps are printed in wire order, byte strings in hex; nothing that came out of a hash
 map or a clock is compared.
@@ -349,6 +363,10 @@ they are listed in §8 with the property whose check found them.
 * Arrays whose elements are null, lists, maps, arrays or described values do not round-trip in
   the implementation (known findings C03 / C20); they are outside the well-formedness predicate
   of the codec theorems, stated as an explicit decidable hypothesis.
+* The io reader model is hand-written (no generated part): it is tied to `read/ioread.rs` and
+  `read/slice.rs` only by the `ioread` runs (operation sequences over sources of every length, short
+  reads, every operation of the trait); `forward_read_str`'s UTF-8 check is outside the model (the
+  runs compare it on the implementation alone).
 * Cryptographic strength (C19) is a parameter, not a theorem.
 * Tooling: Mathlib was not needed; `leanchecker` runs in the thorough tier only (1–2 min per
   module); Aeneas-style mechanical translation of whole functions is not available offline, hence
